@@ -574,3 +574,86 @@ def rule_G11(ck):
                                  construct=f"deferred-unsafe use of {name} in {q.split('::')[1]}")
     if n < 5:
         ck.unknown(f"only {n} uses of possibly-deferred results found (nine confirmed by hand)")
+
+
+# ---------------------------------------------------------------------------------------------------------------
+# G12 - evaluation depth: a thunk that forces another deferred nests one Python recursion per link of a definition chain
+VALUE_MODULES = ("compiler", "types", "operators", "deferred")
+# forcing sites that are accepted, with the reason (keyed by the public function that creates the thunk)
+G12_ACCEPTED = {
+    "deferred::BaseDeferred.length": "forces the chunk whose length it is: a sink of a bytes value, not a link between symbol values",
+    "deferred::Deferred.length": "forces the chunk whose length it is: a sink of a bytes value, not a link between symbol values",
+    "deferred::BaseDeferred.__mul__": "reached only while BOTH factors are unknown; at the closing wait every symbol has a definition, the product of a value and an unknown is a "
+                                      "LinearPolynomial, and wait() iterates over those without nesting (chains of 3000 'a = k * b' links assemble in either order)",
+    "deferred::LinearPolynomial.__mul__": "same as BaseDeferred.__mul__: product of two unknown polynomials only",
+}
+
+
+def _forcing_calls(node):
+    out = []
+    for n in ast.walk(node):
+        if isinstance(n, ast.Call):
+            f = n.func
+            if (isinstance(f, ast.Name) and f.id == "wait") or (isinstance(f, ast.Attribute) and f.attr == "wait"):
+                out.append(n)
+    return out
+
+
+def _thunk_type(thunk):
+    """text of T in the Deferred[T](thunk) / SizedDeferred[T](n, thunk) call the thunk is handed to, or None"""
+    def ctor(call):
+        f = call.func
+        if isinstance(f, ast.Subscript) and norm_text(f.value) in ("Deferred", "SizedDeferred"):
+            return norm_text(f.slice)
+        return None
+    if isinstance(thunk, ast.Lambda):
+        p = getattr(thunk, "_parent", None)
+        return ctor(p) if isinstance(p, ast.Call) else None
+    p = getattr(thunk, "_parent", None)
+    while p is not None and not isinstance(p, FUNC_TYPES):
+        p = getattr(p, "_parent", None)
+    if p is None:
+        return None
+    for n in walk_local(p):
+        if isinstance(n, ast.Call) and any(isinstance(a, ast.Name) and a.id == thunk.name for a in n.args):
+            t = ctor(n)
+            if t:
+                return t
+    return None
+
+
+def rule_G12(ck):
+    """Definition chains of any length (C03) must not need Python recursion proportional to their length (C08: RecursionError
+    is an internal crash). wait() is a loop: a thunk that RETURNS an unevaluated deferred costs no stack. A thunk that calls
+    wait() itself keeps its frames alive while the next link is evaluated."""
+    from . import thunks
+    repo = ck.repo
+    sites = {}
+    for r in thunks.analyse(repo):
+        q = r["qual"]
+        if q.split("::")[0] not in VALUE_MODULES:
+            continue
+        calls = _forcing_calls(r["thunk"])
+        if not calls:
+            continue
+        if _thunk_type(r["thunk"]) == "bytes":
+            # a chunk of output bytes: forced once by the output stage; symbol values refer to it only through length()
+            ck.instance(("sink", public_qual(q)), {"function": public_qual(q), "verdict": "bytes chunk (a sink of the evaluation, not a link between symbol values)"}, fn=q)
+            continue
+        sites.setdefault(public_qual(q), []).append((r["thunk"], calls, "thunk"))
+    # operator functions are invoked from inside the operators' thunks
+    for fn, dec in repo.decorated("operators", "operator"):
+        calls = _forcing_calls(fn)
+        if calls:
+            sites.setdefault("operators::" + fn.name, []).append((fn, calls, "operator function (runs inside the operator's thunk)"))
+    for where, lst in sorted(sites.items()):
+        node, calls, kind = lst[0]
+        why = G12_ACCEPTED.get(where)
+        ck.instance(("forcing", where), {"function": where, "kind": kind, "forces": sorted({norm_text(c)[:50] for _, cs, _ in lst for c in cs}), "verdict": "accepted: " + why if why else "recursion link"}, fn=where)
+        if why:
+            continue
+        ck.violation(node, f"the lazily evaluated value built in {where.split('::')[1]} forces its operand with {norm_text(calls[0])[:40]} from inside its own thunk: resolving a chain of definitions "
+                           "'a0 = f(a1)', 'a1 = f(a2)', ... written before the definitions they refer to nests one Python recursion per link (about ten frames), so ~100 links end in "
+                           "RecursionError ('unexpected internal compiler error') while the same definitions in dependency order assemble", construct=f"forcing thunk in {where.split('::')[1]}")
+    if len(sites) < 6:
+        ck.unknown(f"only {len(sites)} forcing thunks found in {VALUE_MODULES} (eight confirmed by hand)")
